@@ -24,14 +24,14 @@ var props = map[string]*propDef{
 	"C05": {
 		level: "exploration", engine: "gensim",
 		rule:    "each simulation forks one world: variants run a seeded selection of packages together (two orders, and through All) and every package alone, with stateful scripted generators (helper-emitted flag, per-instance counters; with and without New) or the real runtimedoc/deepcopy/defaulter generators, under seeded map orders; per-package outputs are compared byte for byte and generator instances are traced; distinct = distinct (package count, selection size, real/scripted, generator names, go version)",
-		sims:    map[string]int{"quick": 60, "thorough": 6000},
+		sims:    map[string]int{"quick": 120, "thorough": 6000},
 		budget:  map[string]time.Duration{"quick": 40 * time.Second, "thorough": 15 * time.Minute},
 		explore: func(c *sim.CheckCtx) { c.Explore("c05", sim.SimC05) },
 	},
 	"C13": {
 		level: "exploration", engine: "gensim",
 		rule:    "each simulation draws a module (local types and type parameters shadowing package-level names, generic receivers, grouped declarations, diamond imports, optionally with generated files from an earlier run) and loads it with gengo's loader under asc/desc/shuffled orders of types.Info.Defs, packages.Package.Imports and Universe.pkgs; every accessor of every module package is compared with go/types and go/ast inside the worker; distinct = distinct (package count, shadowing kinds, generics, entrypoint count, go version)",
-		sims:    map[string]int{"quick": 150, "thorough": 15000},
+		sims:    map[string]int{"quick": 300, "thorough": 15000},
 		budget:  map[string]time.Duration{"quick": 35 * time.Second, "thorough": 15 * time.Minute},
 		explore: func(c *sim.CheckCtx) { c.Explore("c13", sim.SimC13) },
 	},
@@ -46,27 +46,27 @@ var props = map[string]*propDef{
 		level: "fault_enumeration", engine: "gensim",
 		rule:    "each simulation builds a world that already holds outputs and a gengo.sum, edits sources, records the victim run fault-free and re-runs it once per failure point of the recorded trace: an error from every GenerateType/GenerateAliasType/Defer callback, unparseable rendering for every (generator, package), a real SIGKILL before every event of the Execute phase (all events in the quick tier's small worlds, a stratified sample in thorough), torn writes; each faulty variant is followed by fault-free recovery runs and compared with the never-failed execution; distinct = distinct (world, failure point)",
 		sims:    map[string]int{"quick": 12, "thorough": 600},
-		budget:  map[string]time.Duration{"quick": 50 * time.Second, "thorough": 20 * time.Minute},
+		budget:  map[string]time.Duration{"quick": 35 * time.Second, "thorough": 20 * time.Minute},
 		explore: func(c *sim.CheckCtx) { c.Explore("c02", sim.SimC02) },
 	},
 	"C06": {
 		level: "exploration", engine: "gensim",
 		rule:    "each simulation draws a module (declaration kinds x tag placements at global/package/declaration level x generator names that are prefixes of one another), scripted generators and 1-3 runs under asc/desc/rotated/shuffled map orders; the callback trace is compared with the enabled set computed from the spec by the rule of the property text; distinct = distinct (package count, op-kind sequence); non-trivial = at least one package executed",
-		sims:    map[string]int{"quick": 150, "thorough": 20000},
+		sims:    map[string]int{"quick": 300, "thorough": 20000},
 		budget:  map[string]time.Duration{"quick": 40 * time.Second, "thorough": 15 * time.Minute},
 		explore: func(c *sim.CheckCtx) { c.Explore("c06", sim.SimC06) },
 	},
 	"C07": {
 		level: "exploration", engine: "gensim",
 		rule:    "each simulation is a history of 3-7 ops (runs with varying generator subsets, All on/off, Force; source edits; planted stale outputs and look-alike files; broken go.mod; runs with generator errors, injected I/O errors or a SIGKILL at a random event) over a world full of files gengo must not touch; the whole tree is snapshotted before and after every run; distinct = distinct (package count, op-kind sequence incl. fault kinds)",
-		sims:    map[string]int{"quick": 100, "thorough": 12000},
+		sims:    map[string]int{"quick": 300, "thorough": 20000},
 		budget:  map[string]time.Duration{"quick": 45 * time.Second, "thorough": 15 * time.Minute},
 		explore: func(c *sim.CheckCtx) { c.Explore("c07", sim.SimC07) },
 	},
 	"C08": {
 		level: "exploration", engine: "gensim",
 		rule:    "each simulation is a history of 4-9 ops over {edit/add/delete a file, delete or corrupt gengo.sum (8 kinds), plant an unhashable entry, run, run with Force, run on a subset, failing run, killed run, external edit between load and execute, converge} against a reference model of the cache; distinct = distinct (package count, op-kind sequence incl. fault kinds)",
-		sims:    map[string]int{"quick": 100, "thorough": 12000},
+		sims:    map[string]int{"quick": 300, "thorough": 20000},
 		budget:  map[string]time.Duration{"quick": 45 * time.Second, "thorough": 15 * time.Minute},
 		explore: func(c *sim.CheckCtx) { c.Explore("c08", sim.SimC08) },
 	},
@@ -80,7 +80,7 @@ var props = map[string]*propDef{
 	"C04": {
 		level: "exploration", engine: "gensim",
 		rule:    "each simulation draws a module, generator scripts and arguments from the seed and executes the same world under asc/desc/shuffled/rotated map orders at every iteration site, permuted entrypoints, fresh and warm worker processes, plus a three-run fixed-point history; distinct = distinct (package count, shadowing kinds, All, entrypoint count, go version, generator names) among simulations in which at least one package was generated",
-		sims:    map[string]int{"quick": 40, "thorough": 4000},
+		sims:    map[string]int{"quick": 60, "thorough": 4000},
 		budget:  map[string]time.Duration{"quick": 40 * time.Second, "thorough": 15 * time.Minute},
 		explore: func(c *sim.CheckCtx) { c.Explore("c04", sim.SimC04) },
 	},
